@@ -34,8 +34,7 @@ Definition line_rule (line : str) : option rule :=
   let st := run false init (line ++ [c_nl]) in
   if is_top_fresh st then match p_rules st with [r] => Some r | _ => None end else None.
 
-Definition field_line (f : field) : str :=
-  rule_name_of f ++ [32;58;58;61;32;34] ++ fd_name f ++ [34;32;34;58;58;34;32;119;115;32] ++ pattern_of f.
+(* `field_line f` (Gbnf/Compiler.v) is the per_field template of the generated list instantiated at f *)
 
 Definition picked (f : field) : option cst :=
   match fd_chain f with Some ch => chain_pick ch | None => None end.
@@ -54,6 +53,10 @@ Definition regex_field_ok (allowed : list str) (f : field) : bool :=
 
 Definition lit_plain (s : str) : bool := negb (memb c_dq s) && negb (memb c_bs s) && negb (memb 0 s).
 Definition no_nul (s : str) : bool := negb (memb 0 s).
+(* a name written between double quotes: when the templates escape it (flag from the translator; repo 481c8b3) the
+   only requirement left is that it has no NUL (the text is a C string); when they paste it raw it must also be free
+   of quote and backslash.  A line break inside a literal is accepted by the recogniser in both cases. *)
+Definition name_lit_ok (escaped : bool) (s : str) : bool := if escaped then no_nul s else lit_plain s.
 Definition comment_safe (s : str) : bool := negb (memb c_nl s) && negb (memb c_cr s) && negb (memb 0 s).
 
 Definition cst_scope_ok (c : cst) : bool :=
@@ -67,11 +70,27 @@ Definition bit (b : bool) (k : N) : N := if b then N.shiftl 1 k else 0.
 
 (* falsified clauses:
    bit0 a sanitised rule name contains `_`            bit1 two fields share a sanitised rule name
-   bit2 a sanitised rule name is a structural name    bit3 a field name is not re-read from its unescaped literal
-   bit4 the schema name breaks the comment / envelope literal
+   bit2 a sanitised rule name is a structural name    bit3 a field name is not re-read from its literal
+                                                          (escaped templates: only a NUL in the name)
+   bit4 the schema name breaks the header comment (line break / NUL) or the envelope literal (escaped: only NUL)
    bit5 a REGEX member does not compile to a well-formed right-hand side
    bit6 model scope: empty ENUM or NUL inside a constant *)
 Definition schema_clauses (s : schema) (env : bool) : N :=
+  let names := rule_names s in
+  let allowed := names ++ struct_names env in
+  bit (existsb (memb c_us) names) 0
+  + bit (negb (nodupb names)) 1
+  + bit (existsb (fun n => str_in n (struct_names env)) names) 2
+  + bit (negb (forallb (fun f => name_lit_ok gbnf_field_name_escaped (fd_name f)) (sc_fields s))) 3
+  + bit (negb (comment_safe (sc_name s)
+               && (negb env || name_lit_ok gbnf_schema_name_escaped (py_upper (sc_name s) (sc_upper s))))) 4
+  + bit (negb (forallb (fun f => negb (is_regex_field f) || regex_field_ok allowed f) (sc_fields s))) 5
+  + bit (negb (forallb (fun f => match picked f with Some c => cst_scope_ok c | None => true end) (sc_fields s))) 6.
+
+Definition safe_schema (s : schema) (env : bool) : bool := N.eqb (schema_clauses s env) 0.
+
+(* the domain as it stood BEFORE repo commit 481c8b3 (names pasted raw): kept to state that the class grew *)
+Definition schema_clauses_raw_names (s : schema) (env : bool) : N :=
   let names := rule_names s in
   let allowed := names ++ struct_names env in
   bit (existsb (memb c_us) names) 0
@@ -81,5 +100,4 @@ Definition schema_clauses (s : schema) (env : bool) : N :=
   + bit (negb (comment_safe (sc_name s) && (negb env || lit_plain (py_upper (sc_name s) (sc_upper s))))) 4
   + bit (negb (forallb (fun f => negb (is_regex_field f) || regex_field_ok allowed f) (sc_fields s))) 5
   + bit (negb (forallb (fun f => match picked f with Some c => cst_scope_ok c | None => true end) (sc_fields s))) 6.
-
-Definition safe_schema (s : schema) (env : bool) : bool := N.eqb (schema_clauses s env) 0.
+Definition safe_schema_raw_names (s : schema) (env : bool) : bool := N.eqb (schema_clauses_raw_names s env) 0.
